@@ -514,6 +514,7 @@ def run(prog: Program, rep: Report, tier: str) -> None:
     from ..share import share
 
     share(prog, rep, "C06", ("R06.6",), "R07.6", "dense layout: every record is written at its own row of the current file (split files concatenate to the unsplit run)", 3)
+    share(prog, rep, "C13", ("R13.1", "R13.2"), "R07.7", "the clock behind the record times advances by dt per step in the direction of the run", 6)
 
 
 
